@@ -147,6 +147,11 @@ pub fn profile_for(prop: &str, variant: u64, thorough: bool) -> Profile {
             p.rets = [4, 4, 3, if variant % 2 == 0 { 4 } else { 0 }];
             p.p_me_sel = 60;
         }
+        "C10" => {
+            p.kinds = [2, 1, 0, 2, 2, 8, 8, 1, 0];
+            p.outside = [10, 4, 4, 4, 3, 34, 28, 1, 0, 0, 0, 4, 0];
+            p.incb = [4, 4, 3, 3, 2, 10, 0, 0, 0, 0, 0, 2, 0];
+        }
         "C13" => {
             p.kinds = [6, 2, 0, 3, 3, 0, 0, 0, 0];
             p.outside = [8, 2, 2, 2, 1, 20, 28, 1, 22, 0, 0, 0, 0];
@@ -240,6 +245,7 @@ fn gen_cause(rng: &mut Rng, p: &Profile, incb: bool) -> Op {
         6 => Op::SetDeadline(sel, *rng.pick(&p.timer_dls)),
         7 => Op::Schedule(sel, rng.below(4) as u8),
         8 => Op::WakeTask(sel, rng.below(8) as u8),
+        9 if rng.chance(1, 3) => Op::StreamPushSelfWake(sel),
         9 => Op::StreamPush(sel),
         _ => Op::ClosePeer(sel, c),
     }
